@@ -23,3 +23,6 @@ for (i, c) in sorted(set(QUICK_GEO + ALL_GEO)):
 # variant, so no decreases clause: lock-free retry does not terminate by a local measure)
 PAIRS.append(RG("claim_field", "h_claim_field", unwind=14, mode="dfcc", loops="loops/c14_claim_field.json", need_ids=["loop_invariant_step"], label="RG", K=None, defs=["-DVC_K=1000000000"],   # interference unbounded: retries are covered by the invariant
                 functions=["_mi_bitmap_try_find_claim_field", "mi_bitmap_mask_"]))
+import arena_common
+A = arena_common.pairs()
+PAIRS += [A["try_alloc_at"], A["arena_free"]]
